@@ -64,7 +64,7 @@ Certified(p) ==      \* the code's predicates (see VSSAgg.ImplCertified)
    theirs (its aggregator tracks the id of what it was dealt) *)
 Sess(p) == IF p = D \/ kind[p] \in {"good", "badshare"} THEN 0             \* this session (polynomial A)
            ELSE IF kind[p] \in {"otherpoly", "othersession"} THEN 1           \* the dealer's other polynomial B
-           ELSE 2 + p                                                        \* tlow: an id nobody else has
+           ELSE 2                                                            \* tlow: same commitments, T = 1: a third id
 InSession(p) == Sess(p) = 0
 SidOK(i) == InSession(i)
 
@@ -87,7 +87,7 @@ Deal(i, k) ==
   /\ LET s == IF k \in {"good", "othersession"} THEN "app" ELSE "comp"     \* othersession is a valid deal of another session
          own == [tab[i] EXCEPT ![i] = s]
          \* pending responses are processed in increasing index order; they are all distinct indices
-         mine == IF k \in {"good", "badshare"} THEN 0 ELSE IF k \in {"otherpoly", "othersession"} THEN 1 ELSE 2 + i
+         mine == IF k \in {"good", "badshare"} THEN 0 ELSE IF k \in {"otherpoly", "othersession"} THEN 1 ELSE 2
          filled == [j \in V |-> IF j \in pend[i] /\ own[j] = "none" /\ Sess(j) = mine THEN st[j] ELSE own[j]] IN
      /\ kind' = [kind EXCEPT ![i] = k]
      /\ st' = [st EXCEPT ![i] = s]
